@@ -211,8 +211,14 @@ class FailureDetection(Observer):
                     continue
                 self._probe('lost_process_checked')
                 if ident in info['identifiers']:
+                    sig = 'lost-still-listed'
+                    if old == 'CHECKING' and new == 'ISOLATED':
+                        # recorded finding: the ALL_INFO notification of an earlier, authorized hand-shake is accepted in a
+                        # later CHECKING episode (no time-stamp guard, TODO in Context.load_processes), then the current
+                        # hand-shake is refused: the peer is ISOLATED straight from CHECKING, a path that invalidates nothing
+                        sig = 'lost-still-listed:stale-ALL_INFO-loaded-then-authorization-refused'
                     self.violate('lost-still-listed', {'observer': inst.nick, 'peer': ident, 'process': ns,
-                                                       'identifiers': info['identifiers']}, 'lost-still-listed')
+                                                       'identifiers': info['identifiers'], 'from': old, 'to': new}, sig)
                 elif not info['identifiers'] and info['statename'] != 'FATAL':
                     self.violate('lost-not-fatal', {'observer': inst.nick, 'peer': ident, 'process': ns,
                                                     'statename': info['statename']}, 'lost-not-fatal')
